@@ -76,7 +76,100 @@ fn fmt_log(log: Vec<Notif>) -> String {
   format!("o={}", parts.join(";"))
 }
 
+/// field `uniterr`: a hot pipeline over `Subject<Val, ()>` — an error type WITHOUT payload — subscribed through the closure
+/// glue (`on_error(..).on_complete(..).subscribe(..)`; `ce`: on_complete first).  An error prints as `E0`.
+fn run_uniterr_local(case: &Case, out: &mut Out) {
+  let log = Rc::new(RefCell::new(Vec::<Notif>::new()));
+  let mut s: Subject<Val, ()> = Subject::default();
+  let order = case.field("uniterr")[0].atom().to_string();
+  let mapped = case.has("umap");
+  let mut sub: Option<Box<dyn FnOnce()>> = None;
+  for (k, ev) in case.events.iter().enumerate() {
+    out.cur = k;
+    match ev[0].atom() {
+      "sub" => {
+        let (l1, l2, l3) = (log.clone(), log.clone(), log.clone());
+        let f = crate::val::fn1("add1");
+        let src = s.clone().map(move |v: Val| if mapped { f(v) } else { v });
+        if order == "ce" {
+          let u = src
+            .on_complete(move || l2.borrow_mut().push(Notif::Complete))
+            .on_error(move |_: ()| l1.borrow_mut().push(Notif::Error(0)))
+            .subscribe(move |v| l3.borrow_mut().push(Notif::Next(v)));
+          sub = Some(Box::new(move || u.unsubscribe()));
+        } else {
+          let u = src
+            .on_error(move |_: ()| l1.borrow_mut().push(Notif::Error(0)))
+            .on_complete(move || l2.borrow_mut().push(Notif::Complete))
+            .subscribe(move |v| l3.borrow_mut().push(Notif::Next(v)));
+          sub = Some(Box::new(move || u.unsubscribe()));
+        }
+      }
+      "emit" => match Notif::parse(&ev[2]) {
+        Notif::Next(v) => s.next(v),
+        Notif::Error(_) => s.clone().error(()),
+        Notif::Complete => s.clone().complete(),
+      },
+      "unsub" => {
+        if let Some(u) = sub.take() {
+          u()
+        }
+      }
+      e => panic!("uniterr: unknown event {}", e),
+    }
+    let drained = std::mem::take(&mut *log.borrow_mut());
+    out.emit(k, fmt_log(drained));
+  }
+}
+
+fn run_uniterr_threads(case: &Case, out: &mut Out) {
+  let log = Arc::new(Mutex::new(Vec::<Notif>::new()));
+  let mut s: SubjectThreads<Val, ()> = SubjectThreads::default();
+  let order = case.field("uniterr")[0].atom().to_string();
+  let mapped = case.has("umap");
+  let mut sub: Option<Box<dyn FnOnce()>> = None;
+  for (k, ev) in case.events.iter().enumerate() {
+    out.cur = k;
+    match ev[0].atom() {
+      "sub" => {
+        let (l1, l2, l3) = (log.clone(), log.clone(), log.clone());
+        let f = crate::val::fn1("add1");
+        let src = s.clone().map(move |v: Val| if mapped { f(v) } else { v });
+        if order == "ce" {
+          let u = src
+            .on_complete(move || l2.lock().unwrap().push(Notif::Complete))
+            .on_error(move |_: ()| l1.lock().unwrap().push(Notif::Error(0)))
+            .subscribe(move |v| l3.lock().unwrap().push(Notif::Next(v)));
+          sub = Some(Box::new(move || u.unsubscribe()));
+        } else {
+          let u = src
+            .on_error(move |_: ()| l1.lock().unwrap().push(Notif::Error(0)))
+            .on_complete(move || l2.lock().unwrap().push(Notif::Complete))
+            .subscribe(move |v| l3.lock().unwrap().push(Notif::Next(v)));
+          sub = Some(Box::new(move || u.unsubscribe()));
+        }
+      }
+      "emit" => match Notif::parse(&ev[2]) {
+        Notif::Next(v) => s.next(v),
+        Notif::Error(_) => s.clone().error(()),
+        Notif::Complete => s.clone().complete(),
+      },
+      "unsub" => {
+        if let Some(u) = sub.take() {
+          u()
+        }
+      }
+      e => panic!("uniterr: unknown event {}", e),
+    }
+    let drained = std::mem::take(&mut *log.lock().unwrap());
+    out.emit(k, fmt_log(drained));
+  }
+}
+
 pub fn run(case: &Case, out: &mut Out) {
+  if case.has("uniterr") {
+    return if case.flavor == "threads" { run_uniterr_threads(case, out) } else { run_uniterr_local(case, out) };
+  }
   if case.flavor == "threads" {
     run_threads(case, out)
   } else {
